@@ -5,7 +5,7 @@
    variate the library draws; that std::uniform_real_distribution is uniform on
    [0,1) is modelled, not proved (validated by frequency tests in bin/check). *)
 From Coq Require Import ZArith QArith Qabs List.
-From Pops Require Import Err Rounding RoundingProps CellDefs CellProps LandDefs LandProps ActionProps.
+From Pops Require Import Err Rounding RoundingProps CellDefs CellProps LandDefs LandProps EnvDefs ActionProps.
 Import ListNotations.
 Local Open Scope Z_scope.
 
@@ -74,6 +74,26 @@ Theorem C12_weather_draw_in_range : forall normal uniform, (0 <= uniform <= 1)%Q
   (0 <= weather_draw normal uniform <= 1)%Q.
 Proof. exact weather_draw_in_range. Qed.
 Print Assumptions C12_weather_draw_in_range.
+
+(* ... for every cell of update_weather_from_distribution, whatever the normal
+   variates; a mean outside [0, 1] and mismatching shapes are rejected *)
+Theorem C12_weather_from_distribution_in_range : forall means draws vals,
+  Forall (fun d => (0 <= snd d <= 1)%Q) draws -> weather_cells means draws = Ok vals ->
+  Forall (fun v => (0 <= v <= 1)%Q) vals /\ length vals = length means /\
+  Forall (fun m => (0 <= m <= 1)%Q) means.
+Proof. exact weather_cells_in_range. Qed.
+Print Assumptions C12_weather_from_distribution_in_range.
+
+Theorem C12_mean_out_of_range_rejected : forall pre m post draws,
+  Forall (fun x => (0 <= x <= 1)%Q) pre -> (length pre <= length draws)%nat ->
+  (m < 0 \/ 1 < m)%Q -> weather_cells (pre ++ m :: post) draws = Err InvalidArgument.
+Proof. exact weather_mean_out_of_range_rejected. Qed.
+Print Assumptions C12_mean_out_of_range_rejected.
+
+Theorem C12_weather_shape_mismatch_rejected : forall mr mc sr sc means draws, (mr <> sr \/ mc <> sc) ->
+  update_weather_from_distribution mr mc sr sc means draws = Err InvalidArgument.
+Proof. exact weather_shape_mismatch_rejected. Qed.
+Print Assumptions C12_weather_shape_mismatch_rejected.
 
 Example C12_nonvacuous :
   ratio_removed 7 (1 # 2) = 3 /\ weather_draw (3 # 2) (1 # 4) = (1 # 4)%Q /\
